@@ -39,7 +39,12 @@ func (b *payPerInterval) intervalCredit(lastSeen time.Time) *big.Int {
 	if b.now == nil {
 		b.now = time.Now
 	}
-	delta := big.NewInt(int64(b.now().Sub(lastSeen)))
+	return b.creditBetween(lastSeen, b.now())
+}
+
+// creditBetween is the credit earned per peer for the stretch from..until.
+func (b *payPerInterval) creditBetween(from time.Time, until time.Time) *big.Int {
+	delta := big.NewInt(int64(until.Sub(from)))
 	interval := big.NewInt(int64(b.Interval))
 	credit := new(big.Int).Mul(delta, &b.CreditPerInterval)
 	return credit.Div(credit, interval)
@@ -80,8 +85,20 @@ func (b *payPerInterval) refund(peers []store.Node, credit *big.Int) {
 }
 
 // OnUpdate takes a node instance (with a LastSeen timestamp of the previous
-// update) and the current active peers.
+// update) and the current active peers. It bills up to the manager's clock.
 func (b *payPerInterval) OnUpdate(node store.Node, peers []store.Node) (store.Balance, error) {
+	if b.now == nil {
+		b.now = time.Now
+	}
+	return b.OnUpdateUntil(node, b.now(), peers)
+}
+
+// OnUpdateUntil is OnUpdate billing the stretch from the node's previous
+// LastSeen up to the given instant. The pool passes the check-in time the
+// store has just recorded for the node: the next update is billed from that
+// very timestamp, so no stretch of time is billed twice or not at all,
+// however long the update takes to process.
+func (b *payPerInterval) OnUpdateUntil(node store.Node, until time.Time, peers []store.Node) (store.Balance, error) {
 	if node.IsHost {
 		// We ignore host updates, only update balance on client updates. If
 		// client fails to update, then the host will disconnect.
@@ -92,7 +109,7 @@ func (b *payPerInterval) OnUpdate(node store.Node, peers []store.Node) (store.Ba
 		return store.Balance{}, fmt.Errorf("payPerInterval: Invalid interval settings: %d per %s", &b.CreditPerInterval, b.Interval)
 	}
 
-	credit := b.intervalCredit(node.LastSeen)
+	credit := b.creditBetween(node.LastSeen, until)
 	if credit.Cmp(new(big.Int)) == 0 {
 		// No time passed?
 		return b.Store.GetNodeBalance(node.ID)
